@@ -163,6 +163,32 @@ impl Sched {
         }
     }
 
+    /// For a thread that was reported `Blocked`: wait until it has parked at a yield point, finished, or
+    /// is (still) blocked in the kernel — without releasing it.
+    pub fn settle(&self, tid: usize) -> StepResult {
+        let mut g = self.inner.lock().unwrap();
+        let mut sleepy = 0;
+        loop {
+            match g.status[tid] {
+                Status::Parked(l) => return StepResult::At(l),
+                Status::Done => return StepResult::Done,
+                Status::NotStarted => return StepResult::Skip,
+                Status::Running => {
+                    if Self::kernel_blocked(g.os_tid[tid]) {
+                        sleepy += 1;
+                        if sleepy >= 25 {
+                            return StepResult::Blocked;
+                        }
+                    } else {
+                        sleepy = 0;
+                    }
+                }
+            }
+            let (ng, _) = self.cv.wait_timeout(g, Duration::from_millis(1)).unwrap();
+            g = ng;
+        }
+    }
+
     pub fn status(&self, tid: usize) -> Status {
         self.inner.lock().unwrap().status[tid]
     }
